@@ -65,6 +65,10 @@ type igen struct {
 	vals  map[string]any
 	// overlap: selections of one object repeated through fragments
 	overlap bool
+	// directives: @skip / @include on the selected fields
+	directives bool
+	// rootExtras: __typename of the root and a data field next to __schema / __type
+	rootExtras bool
 }
 
 func (g *igen) sel(tn string, depth int) string {
@@ -116,6 +120,22 @@ func (g *igen) sel(tn string, depth int) string {
 			}
 		}
 		s := alias + f.Name + args
+		if g.directives && g.r.Intn(6) == 0 {
+			// @skip / @include with literals and variables: what the client excludes is not answered
+			switch g.r.Intn(4) {
+			case 0:
+				s += " @skip(if: true)"
+			case 1:
+				s += " @include(if: false)"
+			case 2:
+				s += " @skip(if: false)"
+			default:
+				v := fmt.Sprintf("s%d", len(g.vars))
+				g.vars = append(g.vars, "$"+v+": Boolean!")
+				g.vals[v] = g.r.Intn(2) == 0
+				s += pick(g.r, []string{" @skip(if: $" + v + ")", " @include(if: $" + v + ")"})
+			}
+		}
 		if comp {
 			s += " " + g.selOrFrag(ft.Name, depth-1)
 		}
@@ -170,7 +190,11 @@ func genIntrospectionOp(r *rand.Rand, s *ast.Schema) *gen.Op {
 }
 
 func genIntrospectionOpWith(r *rand.Rand, s *ast.Schema, overlap bool) *gen.Op {
-	g := &igen{r: r, s: s, vals: map[string]any{}, overlap: overlap}
+	return genIntrospectionOpMode(r, s, overlap, false, false)
+}
+
+func genIntrospectionOpMode(r *rand.Rand, s *ast.Schema, overlap, directives, rootExtras bool) *gen.Op {
+	g := &igen{r: r, s: s, vals: map[string]any{}, overlap: overlap, directives: directives, rootExtras: rootExtras}
 	var roots []string
 	n := 1 + r.Intn(2)
 	names := typeNames(s)
@@ -200,6 +224,10 @@ func genIntrospectionOpWith(r *rand.Rand, s *ast.Schema, overlap bool) *gen.Op {
 			}
 			roots = append(roots, key+"__type(name: $"+v+") "+g.sel("__Type", 3))
 		}
+	}
+	if g.rootExtras {
+		roots = append(roots, pick(r, []string{"__typename", "rt: __typename"}))
+		r.Shuffle(len(roots), func(i, j int) { roots[i], roots[j] = roots[j], roots[i] })
 	}
 	rootSel := "{ " + strings.Join(roots, " ") + " }"
 	if r.Intn(4) == 0 {
@@ -271,6 +299,10 @@ func (p c16) Gen(c *run.Ctx, idx int) (json.RawMessage, error) {
 				q = fmt.Sprintf("{ __type(name: %q) { name %s %s } }", tn, a, b)
 			}
 			op = &gen.Op{Query: q}
+		} else if k%6 == 4 {
+			op = genIntrospectionOpMode(r, cu.mono, false, true, false)
+		} else if k%6 == 1 {
+			op = genIntrospectionOpMode(r, cu.mono, false, k%12 == 1, true)
 		} else if k%3 == 2 {
 			// overlapping selections; pairs that cannot be merged (same key, other arguments) are drawn again
 			for try := 0; try < 12; try++ {
